@@ -1088,6 +1088,14 @@ class Facts:
             elif p in self.fns and p in inl:
                 self.absorbed[p] = self.fns.pop(p)
         self.fn_items_as_values = fnrefs
+        # state grouped into a new private struct whose methods have just been inlined: back to one local per field
+        with open(kp) as fh:
+            known_adts = (json.load(fh).get("__adts__") or {})
+        for p, f in list(self.fns.items()):
+            if f.crate in known and getattr(f, "inlined", False):
+                g = scalarise_struct_locals(self, f, set(known_adts.get(f.crate, {})))
+                if g is not f:
+                    self.fns[p] = g
 
     def _hoist_into_conversions(self, known):
         """`fn f(x: impl Into<X>) { let x = x.into(); .. }` called with a payload type T is `f(X::from(payload))`: the
@@ -2485,6 +2493,138 @@ def inline_calls(facts, fn, should_inline, depth=2):
                 x.inlined = True
                 x.inlined_paths = set(getattr(x, "inlined_paths", set())) | nf.inlined_paths
         return nf3
+    return nf
+
+
+def _places(x, out, skip=()):
+    """Every place-like dict ({"l": int, "p": list}) inside a MIR JSON fragment."""
+    if isinstance(x, list):
+        for e in x:
+            _places(e, out, skip)
+    elif isinstance(x, dict):
+        if id(x) in skip:
+            return
+        if isinstance(x.get("l"), int) and isinstance(x.get("p"), list):
+            out.append(x)
+        for k, v in x.items():
+            if k not in ("l", "p"):
+                _places(v, out, skip)
+
+
+def scalarise_struct_locals(facts, fn, known_adts):
+    """`let mut st = State { a, b }; .. st.a += 1 ..` (also through `&mut st` left behind by inlined methods) becomes one local
+    per field, when st's type is a struct the confirmed tree does not have and st is only ever built field by field and used
+    field by field. Rules written over plain counters / buffers then read a parameter object like the locals it replaced."""
+    cands = []
+    for L in range(fn.arg_count + 1, len(fn.locals)):
+        ty = fn.locals[L].split("<", 1)[0]
+        a = facts.adts.get(ty)
+        if a is None or ty in known_adts or a.get("kind") not in ("Struct", "struct") or len(a["variants"]) != 1 or not a["variants"][0]["fields"]:
+            continue
+        if ty.split("::", 1)[0] != fn.crate:
+            continue
+        cands.append((L, ty, a))
+    if not cands:
+        return fn
+    j = json.loads(json.dumps(fn.j))
+    changed = False
+    done = set()
+    for L, ty, a in cands:
+        if L in done:
+            continue
+        fields = [(x["name"], x["ty"]) for x in a["variants"][0]["fields"]]
+        fnames = {"." + n for n, _ in fields}
+        # the value moved whole between locals of this type (a constructor's return value handed to the `let`): one object
+        same, alias_stmts = {L}, set()
+        grew = True
+        while grew:
+            grew = False
+            for blk in j["blocks"]:
+                for st in blk["stmts"]:
+                    if st["k"] == "assign" and not st["lhs"]["p"] and st["rv"]["k"] == "use" and st["rv"]["op"]["k"] in ("copy", "move") \
+                            and not st["rv"]["op"]["p"] and id(st) not in alias_stmts:
+                        a_, b_ = st["lhs"]["l"], st["rv"]["op"]["l"]
+                        if (a_ in same or b_ in same) and fn.locals[a_].split("<", 1)[0] == ty and fn.locals[b_].split("<", 1)[0] == ty \
+                                and min(a_, b_) > fn.arg_count:
+                            same |= {a_, b_}
+                            alias_stmts.add(id(st))
+                            grew = True
+        done |= same
+        # aliases: r = &mut L | r = &mut (*r0) | r = move r0
+        alias = {}
+        grew = True
+        while grew:
+            grew = False
+            for blk in j["blocks"]:
+                for st in blk["stmts"]:
+                    if st["k"] != "assign" or st["lhs"]["p"] or id(st) in alias_stmts:
+                        continue
+                    rv, src = st["rv"], None
+                    if rv["k"] == "ref" and rv["place"]["l"] in same and not rv["place"]["p"]:
+                        src = L
+                    elif rv["k"] == "ref" and rv["place"]["l"] in alias and rv["place"]["p"] == ["*"]:
+                        src = L
+                    elif rv["k"] == "use" and rv["op"]["k"] in ("copy", "move") and rv["op"]["l"] in alias and not rv["op"]["p"]:
+                        src = L
+                    if src is not None:
+                        alias[st["lhs"]["l"]] = L
+                        alias_stmts.add(id(st))
+                        grew = True
+        # every alias has exactly one definition
+        ok = all(len([d for d in fn.defs(r) if d[1] == "term" or not d[2].get("lhs", {}).get("p")]) == 1 for r in alias)
+        builds = []
+        occ = []
+        for blk in j["blocks"]:
+            for st in blk["stmts"]:
+                if id(st) in alias_stmts:
+                    continue
+                if st["k"] == "assign" and st["lhs"]["l"] in same and not st["lhs"]["p"]:
+                    if st["rv"]["k"] == "agg" and st["rv"].get("adt") == ty and len(st["rv"].get("ops", [])) == len(fields):
+                        builds.append((blk, st))
+                        _places(st["rv"], occ)
+                        continue
+                    ok = False
+                _places(st, occ)
+            _places(blk["term"], occ)
+        for pl in occ:
+            if pl["l"] in same:
+                ok = ok and bool(pl["p"]) and pl["p"][0] in fnames
+            elif pl["l"] in alias:
+                ok = ok and len(pl["p"]) >= 2 and pl["p"][0] == "*" and pl["p"][1] in fnames
+        if not ok or not builds:
+            continue
+        base = len(j["locals"])
+        idx = {}
+        for k, (n, fty) in enumerate(fields):
+            idx["." + n] = base + k
+            j["locals"].append(fty)
+        for pl in occ:
+            if pl["l"] in same:
+                pl["l"], pl["p"] = idx[pl["p"][0]], pl["p"][1:]
+            elif pl["l"] in alias:
+                pl["l"], pl["p"] = idx[pl["p"][1]], pl["p"][2:]
+        for blk in j["blocks"]:
+            new = []
+            for st in blk["stmts"]:
+                if id(st) in alias_stmts:
+                    continue
+                hit = [b for b in builds if b[1] is st]
+                if hit:
+                    order = st["rv"].get("fields") or [n for n, _ in fields]
+                    for n, op in zip(order, st["rv"]["ops"]):
+                        new.append({"k": "assign", "lhs": {"l": idx["." + str(n)], "p": []}, "rv": {"k": "use", "op": op}, "span": st.get("span", "")})
+                    continue
+                new.append(st)
+            blk["stmts"] = new
+        for n, _ in fields:
+            j.setdefault("names", []).append({"name": n, "place": {"l": idx["." + n], "p": []}})
+        changed = True
+    if not changed:
+        return fn
+    nf = Fn(j, fn.crate)
+    for attr in ("inlined", "inlined_paths"):
+        if hasattr(fn, attr):
+            setattr(nf, attr, getattr(fn, attr))
     return nf
 
 
